@@ -345,6 +345,13 @@ func iMutexLock(in *Interp, fn *ssa.Function, a []Value) Value {
 		}
 	}
 	in.heldLocks[mu] = true
+	in.lockCount[mu]++
+	k := "count:db.lock"
+	c, _ := in.ghost[k].(Term)
+	if c.S != SBV {
+		c = mkBV(64, 0)
+	}
+	in.ghost[k] = bvBin("+", c, mkBV(64, 1), false)
 	return nil
 }
 
